@@ -550,6 +550,20 @@ Theorem C03_transform_copy_on_write :
     Inv ct (heap (snd (run_helper ct l (HTransform a) hh s))).
 Proof. exact transform_cow. Qed.
 
+(* transform_<a>(f, _inplace=True) and update_<a>(_inplace=True) without a new value: the value
+   the attribute holds is prepared again (third provenance next to "argument" and "fresh":
+   "held by this slot"; the collection is returned as it is, or copied and normalised when
+   there is an item preparer) and stored back *)
+Theorem C03_transform_inplace_preserves_owned :
+  forall ct, flat_table ct -> inval_spec ct ->
+  forall l a hh s cl d k,
+    h_inplace hh = true -> h_kwfn hh = [] -> oqfn (h_fn hh) ->
+    Inv ct (heap s) -> nth_error (heap s) l = Some (OInst cl d) -> lookup_cls ct cl = Some k ->
+    (forall sp, lookup_attr k a = Some sp -> leaf_attr sp) ->
+    (assoc a d = None -> nonref (class_default k a)) ->
+    Inv ct (heap (snd (run_helper ct l (HTransform a) hh s))).
+Proof. exact transform_inplace. Qed.
+
 (* ---------------- 10. invalidated_by (OwnInval.v) ----------------
    All the operation theorems above are stated for `inval_spec ct`: invalidate_attrs preserves
    TypeInv /\ Owned and every frame.  Tables without invalidated_by satisfy it trivially
@@ -561,26 +575,26 @@ Theorem C03_invalidation_preserves_owned :
     (no_inval_table ct -> inval_spec ct) /\ (inval_ok ct -> inval_spec ct).
 Proof. intros ct Hf. split; [apply no_inval_spec|apply inval_ok_spec; auto]. Qed.
 
-(* the combined statement, with the operations covered as a computable predicate (owned_opg_b,
+(* the combined statement, with the operations covered as a computable predicate (owned_opi_b,
    coq/Inst/OwnAll.v).  Leaf attribute: annotation scalar or List/Set/Dict of scalars, preparers
    (if any) quiet callbacks.  Covered: the constructor of a flat class (keyword and positional
    values flat); obj.a = v, with_<a>(v), update_<a>(v) in place and copy-on-write (fresh
-   argument); transform_<a>(f) copy-on-write; with_<item>, update_<item>, transform_<item>,
+   argument); transform_<a>(f) and update_<a>() in place and copy-on-write; with_<item>, update_<item>, transform_<item>,
    without_<item> in place and copy-on-write (any arguments); del obj.a, reset_<a>() and
    reset() in place and copy-on-write; copy.deepcopy of flat values; the caller building a
    container of scalars.  Tables: inval_ok_b (invalidated_by allowed in classes whose
    attributes are all leaf attributes with simple defaults).
    PARTIAL: the full statement quantifies over every operation (top-level update / transform,
-   keyword attributes and attribute transforms, transform_<a> in place) and every flat table
+   keyword attributes and attribute transforms) and every flat table
    (nested spec classes / Any as elements, do_not_copy, inheritance,
    __post_init__ / __post_copy__, callbacks that copy their argument). *)
 Theorem C03_step_preserves_owned_partial :
   forall ct roots o s,
     flat_table ct -> inval_ok_b ct = true -> no_reserved_b ct = true ->
-    owned_opg_b ct (heap s) roots o = true ->
+    owned_opi_b ct (heap s) roots o = true ->
     TypeInv ct s -> Owned ct (heap s) ->
     TypeInv ct (snd (step ct roots o s)) /\ Owned ct (heap (snd (step ct roots o s))).
-Proof. exact step_preserves_owned_h. Qed.
+Proof. exact step_preserves_owned_i. Qed.
 
 (* ... and hence, by induction, for histories: every operation covered in the state in which
    it starts (hist_covered, computable; the result of each operation is appended to the roots,
@@ -610,7 +624,7 @@ Definition exH2 : list obj :=
    OList [VInt 5%Z]; OList [VStr 5%Z]; OSet [VInt 6%Z]; ODict [(VInt 1%Z, VInt 2%Z)]].
 Definition exRun2 (o : op) := step exCT2 [VRef 0] o (mkst exH2 0 None).
 Definition exGood (o : op) : bool :=
-  owned_opg_b exCT2 exH2 [VRef 0] o && owned_b exCT2 (heap (snd (exRun2 o))) && ti_b exCT2 (heap (snd (exRun2 o))).
+  owned_opi_b exCT2 exH2 [VRef 0] o && owned_b exCT2 (heap (snd (exRun2 o))) && ti_b exCT2 (heap (snd (exRun2 o))).
 
 Example C03_owned_guards_hold :
   no_inval_b exCT2 = true /\ no_reserved_b exCT2 = true /\ owned_b exCT2 exH2 = true /\ ti_b exCT2 exH2 = true /\
@@ -699,8 +713,16 @@ Example C03_owned_guards_hold :
   exGood (OpHelper 0 (HTransform 50) (mkh [] false true VMissing false None None [] (Some (FNewList [VInt 2%Z])))) = true /\
   exGood (OpHelper 0 (HTransform 1) (mkh [] false true VMissing false None None [] (Some (FAddInt 2%Z)))) = true /\
   exGood (OpHelper 0 (HTransform 1) (mkh [] false true VMissing false None None [] (Some (FConst (VStr 2%Z))))) = true /\
+  (* in place on the held value: identity keeps the list, the item preparer of attribute 100 is re-applied *)
+  exGood (OpHelper 0 (HTransform 50) (mkh [] true true VMissing false None None [] (Some FId))) = true /\
+  nth_error (heap (snd (exRun2 (OpHelper 0 (HTransform 50) (mkh [] true true VMissing false None None [] (Some FId)))))) 0
+    = Some (OInst 1 [(1, VInt 3%Z); (50, VRef 1); (70, VRef 2); (80, VRef 3)]) /\
+  exGood (OpHelper 0 (HTransform 50) (mkh [] true true VMissing false None None [] (Some (FNewList [VStr 2%Z])))) = true /\
+  exGood (OpHelper 0 (HTransform 1) (mkh [] true true VMissing false None None [] (Some (FAddInt 2%Z)))) = true /\
+  exGood (OpHelper 0 (HUpdate 50) (exArgs [] true)) = true /\
+  exGood (OpHelper 0 (HUpdate 70) (exArgs [] true)) = true /\
   (* the aliasing assignment of the counterexample is NOT covered: the argument is referenced *)
-  owned_opg_b exCT [OInst 1 [(1, VInt 3%Z); (50, VRef 1)]; OList []] [VRef 0] (OpSetAttr 0 60 (VRef 1)) = false.
+  owned_opi_b exCT [OInst 1 [(1, VInt 3%Z); (50, VRef 1)]; OList []] [VRef 0] (OpSetAttr 0 60 (VRef 1)) = false.
 Proof. vm_compute. repeat split. Qed.
 
 (* invalidated_by: ys (List[str]) is invalidated by xs (List[int]); assigning xs deletes ys *)
@@ -713,11 +735,11 @@ Definition exH3 : list obj :=
 Example C03_invalidation_example :
   no_inval_b exCT3 = false /\ inval_ok_b exCT3 = true /\ no_reserved_b exCT3 = true /\
   owned_b exCT3 exH3 = true /\ ti_b exCT3 exH3 = true /\
-  owned_opg_b exCT3 exH3 [VRef 0] (OpSetAttr 0 50 (VRef 3)) = true /\
+  owned_opi_b exCT3 exH3 [VRef 0] (OpSetAttr 0 50 (VRef 3)) = true /\
   (let r := step exCT3 [VRef 0] (OpSetAttr 0 50 (VRef 3)) (mkst exH3 0 None) in
    fst r = Ok VNone /\ nth_error (heap (snd r)) 0 = Some (OInst 1 [(50, VRef 3)]) /\
    owned_b exCT3 (heap (snd r)) = true /\ ti_b exCT3 (heap (snd r)) = true) /\
-  owned_opg_b exCT3 exH3 [VRef 0] (OpHelper 0 (HWithItem 50) (exArgs [VInt 7%Z] false)) = true /\
+  owned_opi_b exCT3 exH3 [VRef 0] (OpHelper 0 (HWithItem 50) (exArgs [VInt 7%Z] false)) = true /\
   (let r := step exCT3 [VRef 0] (OpHelper 0 (HWithItem 50) (exArgs [VInt 7%Z] false)) (mkst exH3 0 None) in
    owned_b exCT3 (heap (snd r)) = true /\ ti_b exCT3 (heap (snd r)) = true) /\
   (* a history: build a list, construct, insert copy-on-write, update in place, reset, deepcopy *)
@@ -785,6 +807,7 @@ Print Assumptions C03_update_item_preserves_owned.
 Print Assumptions C03_transform_item_preserves_owned.
 Print Assumptions C03_update_preserves_owned.
 Print Assumptions C03_transform_copy_on_write.
+Print Assumptions C03_transform_inplace_preserves_owned.
 Print Assumptions C03_invalidation_preserves_owned.
 Print Assumptions C03_step_preserves_owned_partial.
 Print Assumptions C03_history_preserves_owned.
